@@ -128,3 +128,26 @@ Definition option_eqb {A} (eqb : A -> A -> bool) (a b : option A) : bool :=
 Definition pair_eqb {A B} (ea : A -> A -> bool) (eb : B -> B -> bool) (a b : A * B) : bool :=
   ea (fst a) (fst b) && eb (snd a) (snd b).
 Definition strs_eqb := list_eqb String.eqb.
+
+(* s.replace(old, new) for non-empty old *)
+Fixpoint drop (n : nat) (s : string) : string :=
+  match n, s with O, _ => s | S n', String _ s' => drop n' s' | S _, EmptyString => EmptyString end.
+Fixpoint str_replace_fuel (fuel : nat) (old new s : string) : string :=
+  match fuel with
+  | O => s
+  | S f => match s with
+           | EmptyString => EmptyString
+           | String c s' => if String.prefix old s then new ++ str_replace_fuel f old new (drop (String.length old) s)
+                            else String c (str_replace_fuel f old new s')
+           end
+  end.
+Definition str_replace (old new s : string) : string :=
+  if String.eqb old "" then s else str_replace_fuel (S (String.length s)) old new s.
+
+(* s.rstrip("\n") *)
+Definition rstrip_nl (s : string) : string :=
+  rev_string ((fix go (r : string) := match r with
+                 | String c r' => if Ascii.eqb c (ascii_of_nat 10) then go r' else r
+                 | EmptyString => EmptyString end) (rev_string s)).
+
+Definition NL : string := String (ascii_of_nat 10) "".
